@@ -543,6 +543,39 @@ func mirDirect(seed uint64, tier string, args []string, w *bufio.Writer) {
 	for i := 0; i < cycles; i++ {
 		one(reqs[r.intn(len(reqs))]+r.pick(0, 0, 0, 1, 17), false)
 	}
+	// a Destroy repeated later must not touch a buffer created in between (which the kernel usually places at the address
+	// the destroyed one had)
+	for i := 0; i < 20; i++ {
+		req := reqs[r.intn(len(reqs))]
+		x, err := sbytes.NewMirroredBuffer(req, false)
+		if err != nil || x == nil {
+			continue
+		}
+		names = append(names, x.Name())
+		_ = x.Destroy()
+		y, err := sbytes.NewMirroredBuffer(req, r.intn(2) == 0)
+		if err != nil || y == nil {
+			continue
+		}
+		created += 2
+		names = append(names, y.Name())
+		_ = x.Destroy()
+		if got := namedMappings(filepath.Base(y.Name())); len(got) == 0 {
+			fail("direct.destroy-twice", "size %d: a second Destroy of a destroyed buffer removed the mappings of a buffer created in between", y.Size())
+			_ = y.Destroy()
+			break
+		}
+		c := y.Claim(1)
+		if len(c) == 1 {
+			c[0] = 0x5c // faults if the mapping is gone
+		}
+		if err := y.Destroy(); err != nil {
+			fail("direct.destroy-error", "Destroy of the buffer created in between: %v", err)
+		}
+		if left := namedMappings(filepath.Base(y.Name())); len(left) != 0 {
+			fail("direct.mapping-leaked", "after Destroy /proc/self/maps still lists %v", left)
+		}
+	}
 	// requests the constructor must reject leave nothing behind
 	for _, req := range []int{0, -1, -page, maxInt, -maxInt - 1} {
 		b, err := sbytes.NewMirroredBuffer(req, false)
